@@ -293,3 +293,6 @@ Example dq_double_backslash_witness :
   parse_line [112; 32; 34; 97; 92; 92; 98; 34] = [(TNone, [112]); (TDq, [97; 92; 92; 98])] /\
   parse_line [112; 32; 34; 97; 92; 98; 34] = [(TNone, [112]); (TDq, [97; 92; 98])].
 Proof. split; vm_compute; reflexivity. Qed.
+
+Print Assumptions parse_line_mixed.
+Print Assumptions parse_line_mixed_texts.
